@@ -329,8 +329,35 @@ func draw(t *rapid.T) Case {
 	}
 	cs.AsBytes = rapid.Bool().Draw(t, "asbytes")
 	key := func(label string) []byte {
-		k := rapid.SliceOfN(rapid.Byte(), 32, 32).Draw(t, label)
-		k[0] |= 1 // never all-zero
+		// any 32 bytes that are not all zero are a valid key: random ones, and structured ones (one byte
+		// repeated, a short pattern repeated, a single set bit, zero halves, all ones)
+		var k []byte
+		switch rapid.IntRange(0, 7).Draw(t, label+"_shape") {
+		case 0:
+			k = bytes.Repeat([]byte{rapid.ByteRange(1, 255).Draw(t, label+"_b")}, 32)
+		case 1:
+			n := rapid.SampledFrom([]int{2, 4, 8, 16}).Draw(t, label+"_period")
+			k = bytes.Repeat(rapid.SliceOfN(rapid.Byte(), n, n).Draw(t, label+"_pat"), 32/n)
+		case 2:
+			k = make([]byte, 32)
+			k[rapid.IntRange(0, 31).Draw(t, label+"_pos")] = 1 << rapid.IntRange(0, 7).Draw(t, label+"_bit")
+		case 3:
+			k = append(make([]byte, 16), rapid.SliceOfN(rapid.Byte(), 16, 16).Draw(t, label+"_half")...)
+			if rapid.Bool().Draw(t, label+"_swap") {
+				k = append(k[16:], k[:16]...)
+			}
+		default:
+			k = rapid.SliceOfN(rapid.Byte(), 32, 32).Draw(t, label)
+		}
+		allZero := true
+		for _, b := range k {
+			if b != 0 {
+				allZero = false
+			}
+		}
+		if allZero {
+			k[0] |= 1
+		}
 		return k
 	}
 	cs.Key = key("key")
@@ -371,7 +398,7 @@ func TestManyEncryptions(t *testing.T) {
 	for i := 0; i < n; i++ {
 		m := meta.NewMeta()
 		if err := m.AddEncrypted("k", "the same plaintext every time", key); err != nil {
-			t.Fatalf("INCONCLUSIVE %v", err)
+			ctx.Fail("C19/valid-key-refused", "AddEncrypted refuses the 32-byte key %x, which is neither missing, of the wrong size nor all-zero: %v", key, err)
 		}
 		b, _ := m.GetBytes("k")
 		noteNonce(ctx, b)
